@@ -104,6 +104,15 @@ def r_C02eval(root):
         for pr in ("C13", "C03"): ob(pr, "C13.i", L, W, "%s: one named node per match" % src, okw)
         if not okw:
             for pr in ("C13", "C03"): out.append(Finding(pr, "C13.i", L, W, src, "for the match rule  %s  the rule's expression becomes %s named %r over a match named %r%s; documented: a root Sequence named R over the match itself, which stays anonymous - one parse-tree node carries the rule's name, so the rule's value is converted and its object processor called once" % (src, v.get(".kind") if isinstance(v, dict) else v, v.get(".rule_name") if isinstance(v, dict) else None, body_.get(".rule_name"), " marked as a root rule" if body_.get(".root") else ""), witness=src))
+    # every rule modifier is readable on the rule's root expression afterwards - whatever the shape of the body (the RREL provider reads .split there)
+    for src, mkbody, prm in (("R[split='/']: /x+/;", lambda: E("RegExMatch", rule_name="", to_match="x+"), {"split": "/"}), ("R[split='/']: 'a' 'b';", lambda: S(kw("a"), kw("b")), {"split": "/"}),
+                             ("R[split='::', noskipws]: /x+/;", lambda: E("RegExMatch", rule_name="", to_match="x+"), {"split": "::", "skipws": False}), ("R[ws=' ']: ('a')+;", lambda: P(kw("a")), {"ws": " "})):
+        inst += 1
+        k, v, got = run(mkbody(), {}, prm)
+        okm = k == "ret" and isinstance(v, dict) and all(v.get("." + n_, None) == val_ and type(v.get("." + n_)) is type(val_) for n_, val_ in prm.items()) and v.get(".rule_name") == "R" and v.get(".root") is True
+        for pr in ("C11", "C22"): ob(pr, "C11.i", L, W, "%s: the modifiers are on the root expression" % src, okm)
+        if not okm:
+            for pr in ("C11", "C22"): out.append(Finding(pr, "C11.i", L, W, src, "for the rule  %s  the rule's root expression %s; documented: every modifier of the rule (%s) is an attribute of its root expression - the RREL provider reads the separator of a reference's match rule from there (split), the parser the whitespace mode" % (src, ("carries %s" % {n_: v.get("." + n_, "<missing>") for n_ in prm}) if isinstance(v, dict) else "cannot be built (%s)" % v, ", ".join("%s=%r" % x_ for x_ in prm.items())), witness=src))
     # rule modifiers change how blanks are treated, never what the literals of the rule are
     for src, prm in (("R[noskipws]: 'begin' a=X 'end';", {"skipws": False}), ("R[skipws]: 'begin' a=X 'end';", {"skipws": True}), ("R[ws=' ']: 'begin' a=X 'end';", {"ws": " "})):
         inst += 1
